@@ -7,7 +7,7 @@
      v_drop : place.ty.droppable,
      v_ty   : an identifier of place.ty.to_hugr(ctx) (types are only compared for equality). *)
 From Coq Require Import ZArith List Bool Lia.
-From V.C01 Require Export CmpBase GenCmp.
+From V.C01 Require Export CmpBase GenCmp GenRet.
 Import ListNotations.
 Open Scope Z_scope.
 
@@ -120,8 +120,15 @@ Definition insert_return_vars (c : cfg) : option cfg :=
 Definition no_return_vars (c : cfg) : bool :=
   forallb (fun v => negb (is_return_var (v_name v))) (b_in (get_bb c (c_exit c))).
 
-Definition guarded_insert (c : cfg) : option cfg :=
+Definition guarded_insert_exit_row (c : cfg) : option cfg :=
   if no_return_vars c then insert_return_vars c else Some c.
+
+(* what compile_cfg does, with the guard the source actually has (GenRet.ret_guard) *)
+Definition guarded_insert (c : cfg) : option cfg :=
+  match ret_guard with
+  | GuardExitRow => guarded_insert_exit_row c
+  | GuardNone => insert_return_vars c
+  end.
 
 (* ---- compile_bb: block inputs and outputs ---------------------------------------------- *)
 
